@@ -13,7 +13,7 @@ VARIANTS = [
     V('se3tovec-row-four', M, ("se3mat[0][3], se3mat[1][3], se3mat[2][3]])", "se3mat[0][3], se3mat[1][3], se3mat[2][4]])"), 'fire', 'se3ToVec'),
     V('trvec-slice-too-long', H, ("return new_vec[0:3]", "return new_vec[0:5]"), 'fire', 'TrVec'),
     V('fklink-regression', A, ("tm(fmr.FKinSpace(self._link_homes_global[i].TM,\n            self.screw_list[0:6, 0:i+1], theta[0:i+1]))", "tm(fmr.FKinSpace(self._link_homes_global[i].TM,\n            self.screw_list[0:6, 0:i], theta[0:i+1]))"), 'fire', 'Arm.FKLink'),
-    V('clamp-loop-over-mins', H, ("for j in range(len(theta_list)):\n            if theta_list[j] < joint_mins[j]:", "for j in range(len(joint_mins) + 1):\n            if theta_list[j] < joint_mins[j]:"), 'fire', 'IKinSpaceConstrained'),
+    V('clamp-loop-over-mins', H, ("theta_list = theta_list + new_theta\n        for j in range(len(theta_list)):", "theta_list = theta_list + new_theta\n        for j in range(len(joint_mins) + 1):"), 'fire', 'IKinSpaceConstrained'),
     # benign
     V('benign-rename-loopvar', M, ("for i in range(len(thetalist)):\n        T = np.dot(T, MatrixExp6(VecTose3(Blist[:, i] * thetalist[i])))", "for joint in range(len(thetalist)):\n        T = np.dot(T, MatrixExp6(VecTose3(Blist[:, joint] * thetalist[joint])))"), 'silent'),
     V('benign-forward-loop', M, ("for i in range(len(thetalist) - 2, -1, -1):\n        T = np.dot(T,MatrixExp6(VecTose3(Blist[:, i + 1] \\\n                                         * -thetalist[i + 1])))\n        Jb[:, i] = np.dot(Adjoint(T), Blist[:, i])", "for k in range(1, len(thetalist)):\n        i = len(thetalist) - 1 - k\n        T = np.dot(T,MatrixExp6(VecTose3(Blist[:, i + 1] \\\n                                         * -thetalist[i + 1])))\n        Jb[:, i] = np.dot(Adjoint(T), Blist[:, i])"), 'silent'),
@@ -23,4 +23,6 @@ VARIANTS = [
     V('benign-fklink-slice-before-clamp', A, [("if not protect:\n            theta = self.thetaProtector(theta)\n        end_effector_pos =  tm(fmr.FKinSpace(self._link_homes_global[i].TM,\n            self.screw_list[0:6, 0:i+1], theta[0:i+1]))", "theta = theta[0:i+1]\n        if not protect:\n            theta = self.thetaProtector(theta)\n        end_effector_pos =  tm(fmr.FKinSpace(self._link_homes_global[i].TM,\n            self.screw_list[0:6, 0:i+1], theta))")], 'silent'),
     V('jacobianlink-whole-screw-table-with-theta-prefix', A, ("t_js = fmr.JacobianSpace(self.screw_list[0:6, 0:i+1], theta[0:i+1])", "t_js = fmr.JacobianSpace(self.screw_list, theta[0:i+1])[0:6, 0:i+1]"), 'fire', 'R17.2'),
     V('benign-jacobianlink-full-row-slice', A, ("t_js = fmr.JacobianSpace(self.screw_list[0:6, 0:i+1], theta[0:i+1])", "t_js = fmr.JacobianSpace(self.screw_list[:, 0:i+1], theta[0:i+1])"), 'silent'),
+    V('ikinspace-norm-of-two-element-view', M, ("err = Norm([Vs[0], Vs[1], Vs[2]]) > eomg or Norm([Vs[3], Vs[4], Vs[5]]) > ev\n    while err and i < max_iters:", "err = Norm(Vs[0:3]) > eomg or Norm(Vs[3:5]) > ev\n    while err and i < max_iters:"), 'fire', 'R17.1'),
+    V('benign-ikinspace-norm-of-three-element-view', M, ("err = Norm([Vs[0], Vs[1], Vs[2]]) > eomg or Norm([Vs[3], Vs[4], Vs[5]]) > ev\n    while err and i < max_iters:", "err = Norm(Vs[0:3]) > eomg or Norm(Vs[3:6]) > ev\n    while err and i < max_iters:"), 'silent'),
 ]
